@@ -11,6 +11,7 @@ package nebula
 // outbound packets are decrypted by the harness at the peer (C17).
 
 import (
+	"context"
 	"fmt"
 	"net/netip"
 	"slices"
@@ -261,6 +262,9 @@ type sfwWorld struct {
 	vSpec   *nodeSpec
 	baseCfg map[string]any
 	cache   firewall.ConntrackCache
+	ticker  *firewall.ConntrackCacheTicker
+	// forceChanged: the next applyRules changes the firewall's meaning although the rule lists are the same
+	forceChanged bool
 	stats   map[string]int
 	pktSeq  uint64
 	lastPass map[firewall.Packet]time.Time // last time the tuple passed, whatever the reason (routine cache slack)
@@ -441,7 +445,8 @@ func (w *sfwWorld) applyRules(in, out []fwRule, initial bool) {
 	if initial {
 		return
 	}
-	changed := fmt.Sprint(in, out) != fmt.Sprint(w.ref.in, w.ref.out)
+	changed := w.forceChanged || fmt.Sprint(in, out) != fmt.Sprint(w.ref.in, w.ref.out)
+	w.forceChanged = false
 	if err := w.V.reload(w.vSpec.configYAML()); err != nil {
 		w.rc.HarnessError("reload: %v", err)
 		return
@@ -590,8 +595,12 @@ func runSFW(rc *sk.RunCtx, focus string) {
 		ref.version = v
 	}
 	if cacheOn {
-		w.cache = firewall.ConntrackCache{}
+		w.cache = firewall.ConntrackCache{} // marker: the routine cache is in use
 		ref.cacheWindow = time.Duration(200+tp.Choose(1800)) * time.Millisecond
+		// the real per-routine cache with its real ticker goroutine (on the bubble's clock)
+		tctx, tcancel := context.WithCancel(context.Background())
+		defer tcancel()
+		w.ticker = firewall.NewConntrackCacheTicker(tctx, w.V.f.l, ref.cacheWindow)
 	}
 	rc.Trace("S-fw focus=%s peers=%d vnets=%d vunsafe=%d localAny=%v small=%v cache=%v in=%d out=%d", focus, np, len(vNets), len(vUnsafe), ref.localAny, small, cacheOn, len(in), len(out))
 	for _, r := range in {
@@ -658,7 +667,13 @@ func runSFW(rc *sk.RunCtx, focus string) {
 			sw.runUntil(sw.now + d)
 			rc.Count("ev.clock_advance", 1)
 		case 2: // reload
-			switch tp.Choose(4) {
+			switch tp.Choose(5) {
+			case 4: // same rule lists, default_local_cidr_any flipped: tracked flows must be judged again
+				ref.localAny = !ref.localAny
+				deepMerge(w.baseCfg, map[string]any{"firewall": map[string]any{"default_local_cidr_any": ref.localAny}})
+				w.forceChanged = true
+				w.applyRules(ref.in, ref.out, false)
+				rc.Count("op.reload_local_cidr_any_flip", 1)
 			case 0: // identical
 				w.applyRules(ref.in, ref.out, false)
 			case 1: // drop one rule
@@ -692,11 +707,7 @@ func runSFW(rc *sk.RunCtx, focus string) {
 				w.realOutbound(p, fp)
 			}
 		}
-		if w.cache != nil && sw.now-lastCacheClear >= ref.cacheWindow {
-			// what ConntrackCacheTicker.Get does on a tick
-			w.cache = make(firewall.ConntrackCache, len(w.cache))
-			lastCacheClear = sw.now
-		}
+		_ = lastCacheClear // the cache is flushed by the real ConntrackCacheTicker
 	}
 	for k, v := range w.stats {
 		rc.Count(k, int64(v))
@@ -795,7 +806,7 @@ func (w *sfwWorld) judge(fp firewall.Packet, incoming bool, p *fwPeer, act func(
 	var err error
 	var passed bool
 	if act == nil {
-		err = w.V.f.firewall.Drop(fp, incoming, h, w.V.f.pki.GetCAPool(), w.cache)
+		err = w.V.f.firewall.Drop(fp, incoming, h, w.V.f.pki.GetCAPool(), w.ticker.Get())
 		passed = err == nil
 	} else {
 		passed = act()
@@ -837,11 +848,10 @@ func (w *sfwWorld) judge(fp firewall.Packet, incoming bool, p *fwPeer, act func(
 		if t, ok := w.lastPass[fp]; ok && now.Sub(t) <= ref.cacheWindow {
 			// the routine-local cache answers for a tuple it saw pass less than one cache window ago,
 			// whatever happened to rules and tracked flows meanwhile (documented trade-off of that cache)
+			// (a cache hit neither re-inserts the tuple nor refreshes the tracked flow: the allowance is
+			// measured from the last pass that went through rules / conntrack, and ends with the cache's
+			// next periodic flush)
 			w.stats["probe.passed_by_routine_cache"]++
-			w.lastPass[fp] = now
-			if fl != nil {
-				fl.lastPass = now
-			}
 			return
 		}
 	}
